@@ -197,6 +197,9 @@ func (pkg *pkg) Add(call *call) (string, error) {
 			continue
 		}
 		generator := pkg.generators[p.Name()]
+		if allUntypedNil(call.Args) {
+			return "", fmt.Errorf("Add Error: %s: %s is only given untyped nil, which does not say what type to generate for", p.Name(), call.Name)
+		}
 		name, err := generator.Add(call.Name, call.Args)
 		if err != nil {
 			return "", fmt.Errorf("Add Error: %s: %v", p.Name(), err)
@@ -204,6 +207,16 @@ func (pkg *pkg) Add(call *call) (string, error) {
 		return name, nil
 	}
 	return "", nil
+}
+
+// allUntypedNil returns whether there are arguments and every one of them is the untyped nil.
+func allUntypedNil(args []types.Type) bool {
+	for _, arg := range args {
+		if basic, ok := arg.(*types.Basic); !ok || basic.Kind() != types.UntypedNil {
+			return false
+		}
+	}
+	return len(args) > 0
 }
 
 func (pkg *pkg) Done() bool {
